@@ -52,38 +52,70 @@ def prod(s):
 
 def gen_values(r, dt, n, vclass, budget):
     """n cells of the given value class that fit dtype `dt`; budget[0] bounds the sum of magnitudes of a case
-    (all partial sums stay below 2048, exact in float16)."""
+    (all partial sums stay below 2048, exact in float16).  `vclass` may name several classes joined by '+'
+    (e.g. 'neg+nan': a negative value AND a NaN in the same array, at different positions where n allows it)."""
     lo, hi = INT_RANGE.get(dt, (-10 ** 9, 10 ** 9))
     cap = max(1, min(60, budget[0] // 2))
     floaty = dt in FLOATS or dt in ("complex64", "complex128", "object")
+    parts = vclass.split("+")
+    vclass = parts[0]
     if vclass == "wrap" and dt in ("uint8", "int8") and budget[0] >= 600:
         m = 250 if dt == "uint8" else 120
         budget[0] -= m
         return [r.randrange(m - 20, m + 1) for _ in range(n)]
-    if vclass in ("nan", "inf", "ninf") and not floaty:
-        vclass = "neg"
-    if vclass == "neg" and lo >= 0:
-        vclass = "pos"
     top = min(cap, hi)
     budget[0] -= top
-    if vclass == "zero":
+    if vclass == "zero" and len(parts) == 1:
         return [0] * n
-    vals = [r.randrange(0, top + 1) for _ in range(n)]
-    if vclass == "pos":
-        return vals
-    k = r.randrange(n)
-    if vclass == "neg":
-        vals[k] = -r.randrange(1, min(top, -lo) + 1)
-        if n > 1 and r.random() < 0.5:
-            j = r.randrange(n)
-            vals[j] = -r.randrange(1, min(top, -lo) + 1)
-    elif vclass == "nan":
-        vals[k] = "nan"
-    elif vclass == "inf":
-        vals[k] = "inf"
-    elif vclass == "ninf":
-        vals[k] = "-inf"
+    if vclass == "allneg" and lo < 0:
+        return [-r.randrange(1, min(top, -lo) + 1) for _ in range(n)]
+    vals = [0] * n if vclass == "zero" else [r.randrange(0, top + 1) for _ in range(n)]
+    free = list(range(n))
+    r.shuffle(free)
+    for cls in parts:
+        if cls in ("nan", "inf", "ninf") and not floaty:
+            cls = "neg"
+        if cls == "neg" and lo >= 0:
+            continue
+        if cls not in ("neg", "nan", "inf", "ninf") or not n:
+            continue
+        k = free.pop() if free else r.randrange(n)
+        if cls == "neg":
+            vals[k] = -r.randrange(1, min(top, -lo) + 1)
+            if free and r.random() < 0.5:
+                vals[free.pop()] = -r.randrange(1, min(top, -lo) + 1)
+        else:
+            vals[k] = {"nan": "nan", "inf": "inf", "ninf": "-inf"}[cls]
     return vals
+
+
+def gen_vclass(r, names, weights, p_mix=0.3):
+    """A value class; with probability p_mix a combination of two or three classes in one array (the clipping
+    and comparison code paths treat NaN / infinities / negatives differently when they occur TOGETHER)."""
+    v = r.choices(names, weights)[0]
+    if v in ("wrap", "allneg") or r.random() >= p_mix:
+        return v
+    extra = [x for x in ("neg", "nan", "inf", "ninf") if x != v]
+    r.shuffle(extra)
+    return "+".join([v] + extra[:r.choice([1, 1, 2])])
+
+
+def value_class(a) -> str:
+    """Which special values an operand contains (distribution only)."""
+    if a is None:
+        return "none"
+    d = a["data"]
+    tags = []
+    ints = [v for v in d if isinstance(v, int)]
+    if any(v < 0 for v in ints):
+        tags.append("allneg" if len(ints) == len(d) and all(v < 0 for v in ints) and len(d) > 1 else "neg")
+    if "nan" in d:
+        tags.append("nan")
+    if "inf" in d:
+        tags.append("inf")
+    if "-inf" in d:
+        tags.append("ninf")
+    return "+".join(tags) if tags else "plain"
 
 
 def gen_shape(r, rows, cols, cls):
@@ -116,7 +148,7 @@ def gen_np(r, bucket, rows, cols, budget, p_valid, shape_cls=None, dt=None, vcla
     if dt is None:
         dt = r.choice(ALLOWED[bucket]) if r.random() < p_valid else r.choice(DTYPES)
     if vclass is None:
-        vclass = r.choices(["pos", "neg", "nan", "inf", "ninf", "zero", "wrap"], [50, 22, 7, 5, 4, 4, 8])[0]
+        vclass = gen_vclass(r, ["pos", "neg", "nan", "inf", "ninf", "zero", "wrap", "allneg"], [46, 20, 8, 5, 4, 4, 8, 5])
     return {"xr": None, "shape": shape, "dt": dt, "data": gen_values(r, dt, prod(shape), vclass, budget)}
 
 
@@ -143,7 +175,7 @@ def gen_xr(r, rows, cols, budget, p_valid, w=None, dt=None, vclass=None, form=No
     if dt is None:
         dt = r.choice(FLOATS) if r.random() < max(p_valid, 0.5) else r.choice(DTYPES)
     if vclass is None:
-        vclass = r.choices(["pos", "neg", "nan", "inf", "ninf", "zero"], [55, 25, 7, 5, 4, 4])[0]
+        vclass = gen_vclass(r, ["pos", "neg", "nan", "inf", "ninf", "zero", "allneg"], [50, 24, 8, 5, 4, 4, 5])
     return {"xr": {"dims": dims, "wl": wl}, "shape": shape, "dt": dt,
             "data": gen_values(r, dt, prod(shape), vclass, budget)}
 
@@ -193,11 +225,11 @@ def gen_case(r, det, bucket, rows, cols, n_ops, p_valid):
     ops, budget, last_valid = [], [1900], None
     photon = bucket == "photon"
     if photon:
-        names = ["set", "set3d", "iadd", "add", "empty", "read", "read3d", "eq", "eqrev", "dassign", "dempty"]
-        weights = [20, 12, 24, 6, 6, 8, 5, 6, 4, 6, 3]
+        names = ["set", "set3d", "iadd", "add", "empty", "read", "read3d", "eq", "eqrev", "dassign", "dempty", "asarray"]
+        weights = [20, 12, 24, 6, 6, 8, 5, 6, 4, 6, 3, 3]
     else:
-        names = ["set", "update", "iadd", "add", "empty", "read", "eq", "eqrev", "dassign", "dempty"]
-        weights = [22, 12, 20, 6, 6, 10, 8, 5, 0 if bucket == "phase" else 6, 4]
+        names = ["set", "update", "iadd", "add", "empty", "read", "eq", "eqrev", "dassign", "dempty", "asarray"]
+        weights = [22, 12, 20, 6, 6, 10, 8, 5, 0 if bucket == "phase" else 6, 4, 3]
     holds3d = False
     while len(ops) < n_ops:
         k = r.choices(names, weights)[0]
@@ -207,6 +239,8 @@ def gen_case(r, det, bucket, rows, cols, n_ops, p_valid):
                 o["arr"] = None
             else:
                 o["arr"] = gen_np(r, bucket, rows, cols, budget, p_valid)
+                if photon and r.random() < 0.25:
+                    o["via"] = "array_2d"          # the alias property of Photon
                 if is_valid_for(bucket, rows, cols, o["arr"]):
                     last_valid, holds3d = o["arr"], False
         elif k == "set3d":
@@ -234,8 +268,13 @@ def gen_case(r, det, bucket, rows, cols, n_ops, p_valid):
         if k in ("empty", "dempty") or (k == "update" and o.get("arr") is None):
             holds3d = False
         ops.append(o)
-        if k not in ("read", "read3d", "eq", "eqrev") and len(ops) < n_ops and r.random() < 0.3:
-            ops.append({"op": "read3d" if (photon and holds3d and r.random() < 0.7) else "read"})
+        if k not in ("read", "read3d", "eq", "eqrev", "asarray") and len(ops) < n_ops and r.random() < 0.3:
+            if r.random() < 0.15:
+                ops.append({"op": "asarray"})
+            else:
+                ops.append({"op": "read3d" if (photon and holds3d and r.random() < 0.7) else "read"})
+                if photon and ops[-1]["op"] == "read" and r.random() < 0.25:
+                    ops[-1]["via"] = "array_2d"
     return {"det": det, "rows": rows, "cols": cols, "bucket": bucket, "ops": ops[:max(n_ops, 1)]}
 
 
@@ -258,6 +297,108 @@ def gen_cases(ctx: Ctx, n: int, salt: str, p_valid: float):
         cases.append(gen_case(r, det, bucket, rows, cols, n_ops, p_valid))
         i += 1
     return cases
+
+
+# ---- equality family: stored contents with large / closely spaced values compared with near copies
+BIG_TOP = {"float16": 2047, "float32": 2 ** 24 - 1, "float64": 2 ** 53 - 1, "uint8": 255, "uint16": 65535,
+           "uint32": 2 ** 32 - 1, "uint64": 2 ** 64 - 1}
+
+
+def big_values(r, dt, n):
+    """Exactly representable integers of dtype dt, most of them close to the top of the exact range (where an
+    approximate comparison, a narrowing conversion or a float round trip would lose the difference of 1)."""
+    top = BIG_TOP[dt]
+    mode = r.random()
+    out = []
+    for _ in range(n):
+        if mode < 0.55:
+            out.append(top - r.randrange(0, 64))
+        elif mode < 0.8:
+            out.append(r.randrange(0, top + 1))
+        else:
+            out.append(r.randrange(0, 60))
+    if dt == "float64" and r.random() < 0.25:
+        out[r.randrange(n)] = 2 ** r.choice([60, 100, 500, 1000])       # huge but finite, exact
+    return out
+
+
+def fits(dt, data):
+    return all(isinstance(v, int) and 0 <= v <= BIG_TOP[dt] for v in data)
+
+
+def gen_eq_case(r, det, bucket, rows, cols):
+    """set / set3d / update / dassign of a legal content, then == and its mirror against near copies."""
+    n = rows * cols
+    dt = r.choice(ALLOWED[bucket])
+    photon3d = bucket == "photon" and r.random() < 0.3
+    if photon3d:
+        w = r.choice([1, 2])
+        a = {"xr": {"dims": [0, 1, 2], "wl": WL[:w]}, "shape": [w, rows, cols], "dt": dt, "data": big_values(r, dt, w * n)}
+        ops = [{"op": "set3d", "arr": a}]
+    else:
+        a = {"xr": None, "shape": [rows, cols], "dt": dt, "data": big_values(r, dt, n)}
+        how = r.choice(["set", "set", "update", "dassign"]) if bucket not in ("photon", "phase") else \
+            r.choice(["set", "set", "dassign"]) if bucket == "photon" else r.choice(["set", "update"])
+        if how == "dassign":
+            ops = [{"op": "dassign", "other": {"kind": bucket, "rows": rows, "cols": cols, "content": a}}]
+        else:
+            ops = [{"op": how, "arr": a}]
+            if how == "set" and bucket == "photon" and r.random() < 0.3:
+                ops[0]["via"] = "array_2d"
+    kinds = buckets_of(det)
+    for _ in range(r.choice([2, 3, 4, 5])):
+        b = copy.deepcopy(a)
+        kind, ro, co = bucket, rows, cols
+        v = r.random()
+        if v < 0.2:
+            pass                                                   # identical
+        elif v < 0.45:                                             # one element differs by one
+            j = r.randrange(len(b["data"]))
+            x = b["data"][j]
+            b["data"][j] = x // 2 if x > BIG_TOP[b["dt"]] else x - 1 if x > 0 else x + 1    # stays exactly representable
+        elif v < 0.6:                                              # same values, another allowed dtype
+            cand = [d for d in ALLOWED[bucket] if d != dt and fits(d, b["data"])]
+            if cand:
+                b["dt"] = r.choice(cand)
+        elif v < 0.7:
+            b = None                                               # empty
+        elif v < 0.8 and not photon3d:                             # same array in a container of another kind
+            cand = [k for k in kinds if k != bucket and dt in ALLOWED[k]]
+            if cand:
+                kind = r.choice(cand)
+        elif v < 0.9:                                              # other geometry (content legal there)
+            ro, co = r.choice([g for g in GEOMS if g != (rows, cols)])
+            if r.random() < 0.5:
+                b = None
+            elif photon3d:
+                b = dict(b, shape=[b["shape"][0], ro, co], data=big_values(r, dt, b["shape"][0] * ro * co))
+            else:
+                b = dict(b, shape=[ro, co], data=big_values(r, dt, ro * co))
+        elif bucket == "photon":                                   # 2-D against 3-D
+            if photon3d:
+                b = {"xr": None, "shape": [rows, cols], "dt": dt, "data": a["data"][:n]}
+            else:
+                b = {"xr": {"dims": [0, 1, 2], "wl": WL[:1]}, "shape": [1, rows, cols], "dt": dt, "data": list(a["data"])}
+        ops.append({"op": r.choice(["eq", "eqrev"]), "other": {"kind": kind, "rows": ro, "cols": co, "content": b}})
+        if r.random() < 0.35:
+            ops.append(dict(ops[-1], op="eqrev" if ops[-1]["op"] == "eq" else "eq"))
+        if r.random() < 0.1:
+            ops.append({"op": "empty"})
+        elif r.random() < 0.15:
+            ops.append({"op": r.choice(["read3d" if photon3d else "read", "asarray"])})
+    return {"det": det, "rows": rows, "cols": cols, "bucket": bucket, "ops": ops}
+
+
+def gen_eq_cases(ctx: Ctx, n: int, salt: str = "eqfam"):
+    r = ctx.rng(salt)
+    dets = ["ccd", "cmos", "mkid", "apd"]
+    out = []
+    for i in range(n):
+        det = dets[i % 4]
+        rows, cols = r.choice(GEOMS)
+        out.append(gen_eq_case(r, det, r.choice(buckets_of(det)), rows, cols))
+    return out
+
 
 
 def alphabet(bucket, rows, cols):
@@ -285,6 +426,7 @@ def alphabet(bucket, rows, cols):
         {"op": "add", "arr": np_([cols], good_dt, [1] * cols)},
         {"op": "empty"},
         {"op": "read"},
+        {"op": "asarray"},
         {"op": "dempty", "reset": True},
         {"op": "dempty", "reset": False},
         {"op": "eq", "other": {"kind": bucket, "rows": rows, "cols": cols, "content": None}},
@@ -306,6 +448,12 @@ def alphabet(bucket, rows, cols):
                "data": [-4] + [1] * (2 * n - 1)}
         x3bad = {"xr": {"dims": [0, 1, 2], "wl": [400, 420]}, "shape": [2, cols, rows + 1], "dt": fl,
                  "data": [1] * (2 * cols * (rows + 1))}
+        # negatives TOGETHER with NaN / +inf (2-D and 3-D): reductions such as min()/sum() behave differently
+        mix2 = np_([rows, cols], fl, [-2, "nan"] + [3] * (n - 2))
+        mix2i = np_([rows, cols], "float64", ["inf", -7] + [1] * (n - 2))
+        x3mix = {"xr": {"dims": [0, 1, 2], "wl": [400, 420]}, "shape": [2, rows, cols], "dt": fl,
+                 "data": ["nan", -4] + [1] * (2 * n - 2)}
+        ops += [{"op": "set", "arr": mix2}, {"op": "set", "arr": mix2i}, {"op": "set3d", "arr": x3mix}]
         ops += [{"op": "set3d", "arr": x3}, {"op": "set3d", "arr": x3n}, {"op": "set3d", "arr": x3bad},
                 {"op": "iadd", "arr": x3}, {"op": "iadd", "arr": x3n}, {"op": "read3d"},
                 {"op": "eq", "other": {"kind": "photon", "rows": rows, "cols": cols, "content": x3}}]
@@ -398,6 +546,8 @@ def emit_op(o) -> str:
         return f"ODAssign {emit_cont(o['other'])}"
     if k == "dempty":
         return f"ODEmpty {core.cbool(bool(o['reset']))}"
+    if k == "asarray":
+        return "OAsArray"
     raise ValueError(k)
 
 
@@ -581,7 +731,7 @@ def nontrivial(case, obs) -> bool:
         before = obs[i - 1]["state"] if i > 0 else None
         if before is None and o["op"] not in ("empty", "dempty"):
             return True
-        if obs[i]["out"]["t"] == "raise" and any(x["op"] in ("read", "read3d") for x in case["ops"][i + 1:]):
+        if obs[i]["out"]["t"] == "raise" and any(x["op"] in ("read", "read3d", "asarray") for x in case["ops"][i + 1:]):
             return True
     return False
 
@@ -606,7 +756,9 @@ def add_violations(ctx: Ctx, viol, do_shrink=True):
                 o2 = core.run_driver(ctx, "c13", [small], workers=1)[0]
                 if "obs" in o2:
                     v2 = to_violation(small, o2["obs"], len(small["ops"]) - 1, cl)
-                    v = v2
+                    # never let the shrinker drift from a new violation into a case that is a KNOWN finding
+                    if not any(core.finding_matches(e, v2) for e in findings):
+                        v = v2
         v.what += f" [{len(lst)} case(s) with this signature]"
         if known:
             n_known[0] += 1
@@ -670,6 +822,7 @@ def run(ctx: Ctx):
     cases += exhaustive_cases(1)
     cases += gen_cases(ctx, ctx.budget(700, 4000), "valid", 0.8)
     cases += gen_cases(ctx, ctx.budget(350, 2000), "malformed", 0.3)
+    cases += gen_eq_cases(ctx, ctx.budget(200, 1500))
     if not ctx.quick:
         cases += exhaustive_cases(2)
     pairs, mism, viol, unm = evaluate(ctx, cases, "c")
@@ -704,6 +857,7 @@ def account(ctx: Ctx, pairs, mism, unm, n_corpus=0):
             if "arr" in op and op["arr"] is not None:
                 ctx.dist("operand_dtype", op["arr"]["dt"])
                 ctx.dist("operand_class", operand_class(c["bucket"], c["rows"], c["cols"], op["arr"]))
+                ctx.dist("operand_values", value_class(op["arr"]))
         if nontrivial(c, o):
             seen.add(json.dumps(c, sort_keys=True))
     ctx.cov["distinct_nontrivial"] = ctx.cov.get("distinct_nontrivial", 0) + len(seen)
@@ -728,7 +882,7 @@ def new_violations(ctx: Ctx):
 def search(ctx: Ctx):
     """A proof obligation or the correspondence broke: look harder for a concrete failing input."""
     ctx.log("searching for a concrete failing input (all pairs of the op alphabet, larger random budget)")
-    cases = exhaustive_cases(2) + gen_cases(ctx, 1500, "search", 0.5)
+    cases = exhaustive_cases(2) + gen_cases(ctx, 1500, "search", 0.5) + gen_eq_cases(ctx, 600, "search_eq")
     for b in ctx.broken:
         if isinstance(b.case, dict) and "case" in b.case:
             cases.append(b.case["case"])
